@@ -563,7 +563,7 @@ def lagging_newleader(m, w, k=1, j=2, lag=None, leader=N1, new=N2):
     return w
 
 
-def m_deposed(m, w, old=N1, new=N2, victim=N3, unnoticed=False, op='rem'):
+def m_deposed(m, w, old=N1, new=N2, victim=N3, unnoticed=False, op='rem', pre=0, newk=1):
     """Membership variant of `deposed`: the cut-off old leader has appended an uncommitted
     'remove victim' (exactly one entry), the others elected `new` and committed a command."""
     w = steady(m, w, 0, old)
@@ -575,12 +575,15 @@ def m_deposed(m, w, old=N1, new=N2, victim=N3, unnoticed=False, op='rem'):
                 w = m.do(w, ('X', old, n, 'free'))
     else:
         w = m.isolate(w, old)
+    for _ in range(pre):     # ordinary commands in front of the membership entry in the stale tail
+        w = m.do(w, ('S', old, 'free'))
     # op='add': a request to add a node that is a member already (must be refused: no entry)
     w = m.do(w, ('M', old, op, victim, 'api', 'free'), ('Z', old))
     rest = [n for n, _ in w.nodes if n != old and m.summary(w, n).alive]
     w = elect(m, w, new, only=rest)
     w = beat(m, w, new, only=rest, times=2)
-    w = submit(m, w, new, 1, only=rest)
+    if newk:
+        w = submit(m, w, new, newk, only=rest)
     return w
 
 
